@@ -770,7 +770,9 @@ func (r *Remote) addReferencesToUpdate(
 				return err
 			}
 
-			if prune {
+			// a source given by object hash is not a local reference whose
+			// absence could mean "deleted locally"
+			if prune && !rs.IsExactSHA1() {
 				if err := r.deleteReferences(rs, remoteRefs, refsDict, cmds, true, forceWithLease); err != nil {
 					return err
 				}
